@@ -1,7 +1,10 @@
 package main
 
 import (
+	"fmt"
 	"go/token"
+	"go/types"
+	"sort"
 	"strings"
 
 	"golang.org/x/tools/go/ssa"
@@ -16,6 +19,11 @@ type sliceProv struct {
 	Guards  map[string]bool // names of predicates every element passed (e.g. "IsRoutable", "IsCompatibleWith")
 	Unknown string          // reason when not analysable
 	Mixed   []ssa.Value     // additional roots (join of different sources)
+	// SpecBypass: some phi edge assigns the unfiltered input under a "no filter was requested" fact
+	// (filter spec nil / its list empty); such edges do not weaken Guards but are recorded here.
+	SpecBypass []string
+	// ResultFallback: some phi edge / return yields the filter's input under the fact that the filter RESULT is empty.
+	ResultFallback []string
 }
 
 func (p *sliceProv) guard(n string) bool { return p != nil && p.Guards[n] }
@@ -23,7 +31,7 @@ func (p *sliceProv) guard(n string) bool { return p != nil && p.Guards[n] }
 type provEngine struct {
 	c    *Ctx
 	memo map[ssa.Value]*sliceProv
-	busy map[ssa.Value]bool
+	busy map[any]bool
 	// summaries of repo functions: returned slice ⊆ parameter index (or -1), with guards applied
 	sumMemo map[*ssa.Function]*fnSliceSummary
 }
@@ -33,10 +41,13 @@ type fnSliceSummary struct {
 	Guards   map[string]bool
 	MayAlias bool // may return the parameter itself (unfiltered)
 	Reason   string
+	Fallback []string    // result-empty fallbacks found inside
+	Bypass   []string    // spec-empty bypasses found inside
+	Extra    []ssa.Value // other roots some return may come from (e.g. a fresh query result)
 }
 
 func newProvEngine(c *Ctx) *provEngine {
-	return &provEngine{c: c, memo: map[ssa.Value]*sliceProv{}, busy: map[ssa.Value]bool{}, sumMemo: map[*ssa.Function]*fnSliceSummary{}}
+	return &provEngine{c: c, memo: map[ssa.Value]*sliceProv{}, busy: map[any]bool{}, sumMemo: map[*ssa.Function]*fnSliceSummary{}}
 }
 
 func intersect(a, b map[string]bool) map[string]bool {
@@ -131,6 +142,9 @@ func guardsAt(b *ssa.BasicBlock, e ssa.Value) map[string]bool {
 				}
 			}
 		}
+		if lk, ok := cf.Cond.(*ssa.Lookup); ok && cf.True && derivesFromElem(lk.Index, e, 3) {
+			out["in-set"] = true // membership in a set keyed by a field of the element
+		}
 		if bo, ok := cf.Cond.(*ssa.BinOp); ok {
 			// field comparisons: e.F == K  (record as "F==")
 			for _, side := range []ssa.Value{bo.X, bo.Y} {
@@ -214,7 +228,8 @@ func (p *provEngine) compute(v ssa.Value) *sliceProv {
 		return &cp
 	case *ssa.Phi:
 		var acc *sliceProv
-		for _, e := range x.Edges {
+		var bypass, fallback []string
+		for i, e := range x.Edges {
 			ep := p.of(e)
 			if ep == nil {
 				continue
@@ -222,12 +237,40 @@ func (p *provEngine) compute(v ssa.Value) *sliceProv {
 			if ep.Unknown != "" {
 				return ep
 			}
+			if i < len(x.Block().Preds) {
+				pred := x.Block().Preds[i]
+				if why := specEmptyAt(pred, x.Block()); why != "" {
+					bypass = append(bypass, why+" at "+p.c.Pos(blockPos(pred)))
+					bypass = append(bypass, ep.SpecBypass...)
+					continue // does not weaken the guards: no filter was requested
+				}
+				if y := resultEmptyAt(pred, x.Block()); y != nil {
+					if yp := p.of(y); yp != nil && yp.Root != nil && yp.Root == ep.Root {
+						var lost []string
+						for g := range yp.Guards {
+							if !ep.Guards[g] {
+								lost = append(lost, g)
+							}
+						}
+						if len(lost) > 0 {
+							sort.Strings(lost)
+							fallback = append(fallback, fmt.Sprintf("falls back to a less filtered list (without %v) when the filter result is empty, at %s", lost, p.c.Pos(blockPos(pred))))
+							fallback = append(fallback, ep.ResultFallback...)
+							continue // reported on its own; the guards describe the intended filtering
+						}
+					}
+				}
+			}
 			if acc == nil {
 				cp := *ep
 				acc = &cp
 				continue
 			}
 			acc = joinProv(acc, ep)
+		}
+		if acc != nil {
+			acc.SpecBypass = append(acc.SpecBypass, bypass...)
+			acc.ResultFallback = append(acc.ResultFallback, fallback...)
 		}
 		return acc
 	case *ssa.Call:
@@ -292,22 +335,30 @@ func (p *provEngine) compute(v ssa.Value) *sliceProv {
 				for k := range in.Guards {
 					out.Guards[k] = true
 				}
+				for k := range sum.Guards {
+					out.Guards[k] = true
+				}
 				if !sum.MayAlias {
-					for k := range sum.Guards {
-						out.Guards[k] = true
-					}
 					out.Fresh = true
 				}
+				out.ResultFallback = append(append([]string{}, in.ResultFallback...), sum.Fallback...)
+				out.SpecBypass = append(append([]string{}, in.SpecBypass...), sum.Bypass...)
+				out.Mixed = append(append([]ssa.Value{}, in.Mixed...), sum.Extra...)
 				return &out
 			}
 			return &sliceProv{Root: x, Guards: map[string]bool{}, Unknown: ""}
 		}
+		if cc.IsInvoke() {
+			if r := p.invokeSummary(cc); r != nil {
+				return r
+			}
+		}
 		// dynamic / external call result: a new source
 		return &sliceProv{Root: x, Guards: map[string]bool{}}
 	case *ssa.Extract:
-		if call, ok := x.Tuple.(*ssa.Call); ok {
-			if sc := call.Call.StaticCallee(); sc != nil && p.c.inRepo(sc) && x.Index == 0 {
-				sum := p.summary(sc, 3)
+		if call, ok := x.Tuple.(*ssa.Call); ok && x.Index == 0 {
+			if sc := call.Call.StaticCallee(); sc != nil && p.c.inRepo(sc) {
+				sum := p.summary(sc, 4)
 				if sum.ParamIdx >= 0 && sum.ParamIdx < len(call.Call.Args) {
 					in := p.of(call.Call.Args[sum.ParamIdx])
 					if in != nil && in.Unknown == "" {
@@ -316,13 +367,24 @@ func (p *provEngine) compute(v ssa.Value) *sliceProv {
 						for k := range in.Guards {
 							out.Guards[k] = true
 						}
-						if !sum.MayAlias {
-							for k := range sum.Guards {
-								out.Guards[k] = true
-							}
+						for k := range sum.Guards {
+							out.Guards[k] = true
 						}
+						out.ResultFallback = append(append([]string{}, in.ResultFallback...), sum.Fallback...)
+						out.SpecBypass = append(append([]string{}, in.SpecBypass...), sum.Bypass...)
+						out.Mixed = append(append([]ssa.Value{}, in.Mixed...), sum.Extra...)
 						return &out
 					}
+				}
+			}
+			if call.Call.IsInvoke() {
+				if r := p.invokeSummary(&call.Call); r != nil {
+					return r
+				}
+			}
+			if sc := call.Call.StaticCallee(); sc != nil && p.c.inRepo(sc) {
+				if r := p.originating(sc); r != nil {
+					return r
 				}
 			}
 		}
@@ -359,16 +421,198 @@ func (p *provEngine) compute(v ssa.Value) *sliceProv {
 	return &sliceProv{Unknown: "unrecognised slice construction: " + v.String(), Guards: map[string]bool{}}
 }
 
+// blockPos: a source position inside (or governing) block b.
+func blockPos(b *ssa.BasicBlock) token.Pos {
+	for i := len(b.Instrs) - 1; i >= 0; i-- {
+		if b.Instrs[i].Pos().IsValid() {
+			return b.Instrs[i].Pos()
+		}
+	}
+	for _, cf := range condFacts(b) {
+		if cf.If != nil && cf.If.Cond != nil {
+			if in, ok := cf.If.Cond.(ssa.Instruction); ok && in.Pos().IsValid() {
+				return in.Pos()
+			}
+		}
+	}
+	return token.NoPos
+}
+
+func sameGuards(a, b map[string]bool) bool {
+	if len(a) != len(b) {
+		return false
+	}
+	for k := range a {
+		if !b[k] {
+			return false
+		}
+	}
+	return true
+}
+
+// specEmptyAt: block b is reached only when a filter SPEC is absent: `x == nil` on a non-endpoint value, or len(list)==0
+// on a list that is not a []*Endpoint.
+func specEmptyAt(b *ssa.BasicBlock, succ ...*ssa.BasicBlock) string {
+	facts := condFacts(b)
+	if len(succ) > 0 {
+		facts = edgeFacts(b, succ[0])
+	}
+	for _, cf := range facts {
+		if cf.True && isSpecEmptyCond(cf.Cond) != "" {
+			return isSpecEmptyCond(cf.Cond)
+		}
+	}
+	// `a || b` : the block is entered from several tests, each of which establishes a spec-empty fact
+	if len(b.Preds) >= 2 {
+		why := ""
+		for _, p := range b.Preds {
+			ifi, ok := lastInstr(p).(*ssa.If)
+			if !ok || p.Succs[0] != b || isSpecEmptyCond(ifi.Cond) == "" {
+				return ""
+			}
+			why = isSpecEmptyCond(ifi.Cond)
+		}
+		return why
+	}
+	return ""
+}
+
+func isSpecEmptyCond(v ssa.Value) string {
+	if bo, ok := v.(*ssa.BinOp); ok && bo.Op == token.EQL && isNilConst(bo.Y) && !isEndpointSliceT(bo.X) {
+		return "filter spec is nil"
+	}
+	if x := lenEqZeroOperand(v); x != nil && !isEndpointSliceT(x) {
+		return "filter spec list is empty"
+	}
+	return ""
+}
+
+// resultEmptyAt: block b is reached only when len(Y)==0 for an endpoint slice Y; returns Y.
+func resultEmptyAt(b *ssa.BasicBlock, succ ...*ssa.BasicBlock) ssa.Value {
+	facts := condFacts(b)
+	if len(succ) > 0 {
+		facts = edgeFacts(b, succ[0])
+	}
+	for _, cf := range facts {
+		if x := lenEqZeroOperand(cf.Cond); x != nil && cf.True && isEndpointSliceT(x) {
+			return x
+		}
+		// len(Y) > 0 false
+		if bo, ok := cf.Cond.(*ssa.BinOp); ok && bo.Op == token.GTR && !cf.True {
+			if k, ok := constInt(bo.Y); ok && k == 0 {
+				if call, ok := bo.X.(*ssa.Call); ok {
+					if bi, ok := call.Call.Value.(*ssa.Builtin); ok && bi.Name() == "len" && isEndpointSliceT(call.Call.Args[0]) {
+						return call.Call.Args[0]
+					}
+				}
+			}
+		}
+	}
+	return nil
+}
+
+func isEndpointSliceT(v ssa.Value) bool { return isEndpointSlice(v.Type()) }
+
+// originating: the callee builds the list itself (its root is not one of its parameters): the provenance of the call's
+// result is the join of the provenance of the callee's returned values, evaluated in the callee.
+func (p *provEngine) originating(fn *ssa.Function) *sliceProv {
+	if p.busy[fn] {
+		return nil
+	}
+	p.busy[fn] = true
+	defer delete(p.busy, fn)
+	var acc *sliceProv
+	for _, ret := range returnsOf(fn) {
+		if len(ret.Results) == 0 {
+			return nil
+		}
+		pr := p.of(retResult(ret, 0))
+		if pr == nil {
+			continue
+		}
+		if pr.Unknown != "" {
+			return pr
+		}
+		if _, isParam := pr.Root.(*ssa.Parameter); isParam {
+			return nil
+		}
+		if acc == nil {
+			cp := *pr
+			acc = &cp
+		} else {
+			acc = joinProv(acc, pr)
+		}
+	}
+	return acc
+}
+
+// invokeSummary: result of an interface call, summarised over every repo implementation: if all of them return a subset
+// of the same argument position, the result is a subset of that argument (guards intersected); roots other than the
+// argument that some implementation may return are recorded in Mixed.
+func (p *provEngine) invokeSummary(cc *ssa.CallCommon) *sliceProv {
+	it, _ := cc.Value.Type().Underlying().(*types.Interface)
+	if it == nil {
+		return nil
+	}
+	var out *sliceProv
+	n := 0
+	for _, f := range p.c.Funcs {
+		if f.Parent() != nil || f.Signature.Recv() == nil || f.Name() != cc.Method.Name() || !types.Implements(f.Signature.Recv().Type(), it) {
+			continue
+		}
+		sum := p.summary(f, 4)
+		if sum.ParamIdx < 1 || sum.ParamIdx-1 >= len(cc.Args) {
+			if len(sum.Extra) == 0 && sum.ParamIdx < 0 && sum.Reason == "" {
+				continue // returns only empty lists
+			}
+			return nil
+		}
+		n++
+		in := p.of(cc.Args[sum.ParamIdx-1])
+		if in == nil || in.Unknown != "" {
+			return nil
+		}
+		cur := *in
+		cur.Guards = map[string]bool{}
+		for k := range in.Guards {
+			cur.Guards[k] = true
+		}
+		for k := range sum.Guards {
+			cur.Guards[k] = true
+		}
+		cur.ResultFallback = append(append([]string{}, in.ResultFallback...), sum.Fallback...)
+		cur.SpecBypass = append(append([]string{}, in.SpecBypass...), sum.Bypass...)
+		cur.Mixed = append(append([]ssa.Value{}, in.Mixed...), sum.Extra...)
+		if out == nil {
+			out = &cur
+		} else {
+			j := joinProv(out, &cur)
+			// guards added by one implementation only do not hold for the interface call; guards of the input do
+			out = j
+		}
+	}
+	if n == 0 {
+		return nil
+	}
+	return out
+}
+
 func joinProv(a, b *sliceProv) *sliceProv {
 	if a.Empty && a.Root == nil {
 		cp := *b
+		cp.SpecBypass = append(append([]string{}, a.SpecBypass...), b.SpecBypass...)
+		cp.ResultFallback = append(append([]string{}, a.ResultFallback...), b.ResultFallback...)
 		return &cp
 	}
 	if b.Empty && b.Root == nil {
 		cp := *a
+		cp.SpecBypass = append(append([]string{}, a.SpecBypass...), b.SpecBypass...)
+		cp.ResultFallback = append(append([]string{}, a.ResultFallback...), b.ResultFallback...)
 		return &cp
 	}
 	out := &sliceProv{Root: a.Root, Fresh: a.Fresh && b.Fresh, Guards: intersect(a.Guards, b.Guards)}
+	out.SpecBypass = append(append([]string{}, a.SpecBypass...), b.SpecBypass...)
+	out.ResultFallback = append(append([]string{}, a.ResultFallback...), b.ResultFallback...)
 	out.Mixed = append(append([]ssa.Value{}, a.Mixed...), b.Mixed...)
 	if a.Root != b.Root {
 		out.Mixed = append(out.Mixed, b.Root)
@@ -403,11 +647,19 @@ func (p *provEngine) summary(fn *ssa.Function, depth int) *fnSliceSummary {
 		if pr.Empty && pr.Root == nil {
 			continue
 		}
+		s.Fallback = append(s.Fallback, pr.ResultFallback...)
+		s.Bypass = append(s.Bypass, pr.SpecBypass...)
 		rp, ok := pr.Root.(*ssa.Parameter)
-		if !ok || len(pr.Mixed) > 0 {
-			s.ParamIdx = -1
-			s.Reason = "returns a slice not derived from a parameter"
-			return s
+		if !ok {
+			// a return that comes from another source (fresh query, interface result): remember it, keep going
+			s.Extra = append(s.Extra, pr.Root)
+			s.Extra = append(s.Extra, pr.Mixed...)
+			continue
+		}
+		for _, m := range pr.Mixed {
+			if mp, isP := m.(*ssa.Parameter); !isP || mp != rp {
+				s.Extra = append(s.Extra, m)
+			}
 		}
 		idx := -1
 		for i, q := range fn.Params {
